@@ -25,17 +25,30 @@ Theorem C17_off : forall s p, s_cors s = false -> i_cors (gen_item s p) = None.
 Proof. exact cors_off. Qed.
 Print Assumptions C17_off.
 
-(* without a CORS handler installed the preflight request is not found *)
-Theorem C17_nil_handler : forall it,
-  find_op method_options (i_ops it) = None -> i_cors it <> None ->
-  leaf_lookup false it method_options = Some None.
-Proof. exact cors_nil_handler. Qed.
+(* without a CORS handler installed a request routed to the preflight entry is
+   not found (the not-found handler runs, no middleware, no other operation —
+   not even an OPTIONS operation of an overlapping templated path) *)
+Theorem C17_nil_handler : forall s cfg rq it ms hs,
+  is_spec_request s cfg rq = false -> routed s cfg rq = Some (RCors it) -> i_cors it = Some (ms, hs) ->
+  c_cors cfg = false ->
+  serve s cfg rq = {| status := 404; trace := if c_nf cfg then [NotFoundEv] else [] |}.
+Proof. exact cors_nil_served. Qed.
 Print Assumptions C17_nil_handler.
 
-(* with one installed it is answered by that handler (and bypasses the
-   middlewares: C16_cors_bypass) *)
-Theorem C17_installed_handler : forall it ms hs,
+(* with one installed it is answered by that handler, constructed with the
+   entry's arguments (and bypasses the middlewares: C16_cors_bypass) *)
+Theorem C17_installed_handler : forall s cfg rq it ms hs,
+  is_spec_request s cfg rq = false -> routed s cfg rq = Some (RCors it) -> i_cors it = Some (ms, hs) ->
+  c_cors cfg = true ->
+  serve s cfg rq = {| status := 204; trace := [CorsEv ms hs] |}.
+Proof. exact cors_installed_served. Qed.
+Print Assumptions C17_installed_handler.
+
+(* which requests are routed to the preflight entry: OPTIONS on an item that
+   has the entry and no OPTIONS operation of its own (whether or not a handler
+   is installed: the route functions do not look at it) *)
+Theorem C17_preflight_lookup : forall it ms hs,
   find_op method_options (i_ops it) = None -> i_cors it = Some (ms, hs) ->
   leaf_lookup true it method_options = Some (Some (RCors it)).
 Proof. exact cors_installed_handler. Qed.
-Print Assumptions C17_installed_handler.
+Print Assumptions C17_preflight_lookup.
